@@ -20,7 +20,7 @@ Qed.
 
 Definition cfg2 (g : bool) (flt : nat -> nat -> nat -> bool) : config :=
   {| nthreads := 2; nrounds := 1; ssize := fun _ => 1; shp := {| drop_out := false; drop_in := false |};
-     guard := g; fault := flt; allocs := fun i _ p => [Alloc (N.of_nat (100 * i + p))] |}.
+     guard := g; has_info := fun _ => true; fault := flt; allocs := fun i _ p => [Alloc (N.of_nat (100 * i + p))] |}.
 
 (** Thread 1 panics in its (only) call of the benchmarked function (position n+4 = 5). *)
 Definition flt1 (i r p : nat) : bool := (i =? 1) && (r =? 0) && (p =? 5).
@@ -60,10 +60,10 @@ Definition nofault (i r p : nat) : bool := false.
 
 (** A reachable state in which one thread is inside its timed section. *)
 Example phase_order_hyps :
-  exists c st, 2 <= nthreads c /\ guard c = true /\ reachable c st /\ gp st = GRun /\
+  exists c st, 2 <= nthreads c /\ fixed_code c /\ reachable c st /\ gp st = GRun /\
                exists ti, In ti (ths st) /\ ssize c (round st) + 3 < pc ti.
 Proof.
-  exists (cfg2 true nofault). eexists. split; [cbn; lia|]. split; [reflexivity|]. split.
+  exists (cfg2 true nofault). eexists. split; [cbn; lia|]. split; [split; [reflexivity|intros; reflexivity]|]. split.
   { exists [LStart; t0; t1; t0; t1; t0; t0; t1; t0; t1; t0; t0].
     apply run_labels_exec; vm_compute; reflexivity. }
   split; [reflexivity|].
@@ -86,3 +86,22 @@ Example log_sb_hyps :
   (forall r, ssize (cfg2 true flt1) r = 1) /\
   length (events (cfg2 true flt1) (init (cfg2 true flt1)) (tr_upto_panic ++ [t1; t1; t0; t0; t0; LJoin])) = 18.
 Proof. split; [reflexivity|]. vm_compute. reflexivity. Qed.
+
+(** A latent hazard of [sync_impl], not reachable on Linux: if
+    [ThreadAllocInfo::current()] is None on one thread only, that thread waits
+    twice per sample and the others three times; the guard does not help (the
+    thread does not panic) and the round deadlocks.  T = 2, thread 1 without
+    thread-local info, no fault at all. *)
+Definition cfg2_noinfo1 : config :=
+  {| nthreads := 2; nrounds := 1; ssize := fun _ => 1; shp := {| drop_out := false; drop_in := false |};
+     guard := true; has_info := fun i => negb (i =? 1); fault := nofault; allocs := fun _ _ _ => [] |}.
+
+Example mixed_info_deadlocks :
+  exists tr st, exec_from cfg2_noinfo1 (init cfg2_noinfo1) tr st /\
+                final st = false /\ forall l, step cfg2_noinfo1 st l = None.
+Proof.
+  exists [LStart; t0; t1; t0; t1; t0; t0; t0; t1; t1; t1; t1; t0; t0; t0; t0; t0; t1; t1].
+  eexists. split; [apply run_labels_exec; vm_compute; reflexivity|].
+  split; [reflexivity|].
+  intros [| |[|[|[|i]]]]; reflexivity.
+Qed.
